@@ -559,7 +559,10 @@ pub struct RunResult {
     pub perturb: Perturb,
     pub violation: Option<Violation>,
     pub stats: RunStats,
-    pub digest: u64,
+    /// what the simulator chose (a function of seed and run index only)
+    pub plan_digest: u64,
+    /// what the system under test did
+    pub obs_digest: u64,
 }
 
 fn bump(m: &mut BTreeMap<String, u64>, k: &str, n: u64) {
@@ -907,14 +910,7 @@ pub fn run_one(ctx: &Ctx, wd: &WorkerDir, seed: u64, run: u64) -> RunResult {
     }
     let decls = text.matches("packet ").count() + text.matches("struct ").count() + text.matches("enum ").count();
     st.nontrivial = decls >= 2 && p != Perturb::canonical() && !st.fired.is_empty();
-    let digest = stable_hash(&(
-        run,
-        format!("{:?}", job),
-        format!("{:?}", p),
-        violation.as_ref().map(|v| (v.invariant, v.detail.clone())),
-        format!("{:?}", st.fired),
-        st.open_order_hash,
-        st.ref_status,
-    ));
-    RunResult { job, perturb: p, violation, stats: st, digest }
+    let plan_digest = stable_hash(&(run, format!("{:?}", job), format!("{:?}", p)));
+    let obs_digest = stable_hash(&(violation.as_ref().map(|v| (v.invariant, v.detail.clone())), format!("{:?}", st.fired), st.open_order_hash, st.ref_status));
+    RunResult { job, perturb: p, violation, stats: st, plan_digest, obs_digest }
 }
